@@ -1303,7 +1303,9 @@ Proof.
   { unfold own_of, nparents. rewrite Epar, Hm, Htc, HL. reflexivity. }
   assert (Hownc' : own_of cn' (tens s' c) = w :: R).
   { unfold own_of. fold (lax s' c cn'). rewrite Hlc'.
-    replace (nparents cn') with 1 by reflexivity. replace (nvirt cn') with (S m) by (rewrite <- Hm; reflexivity). reflexivity. }
+    assert (Hv' : nvirt cn' = S m).
+    { rewrite <- Hm. unfold nvirt, nparents. cbn. rewrite Epar. reflexivity. }
+    rewrite Hv'. reflexivity. }
   assert (HRL : incl R L') by (apply skipn_incl').
   assert (HndR : NoDup (cw :: R)) by (rewrite <- Hownc; apply (wf_own1 s H c cn Ec)).
   assert (Hown' : forall k nk nk', k <> c -> aget k (nodes s) = Some nk -> aget k (nodes s') = Some nk' ->
@@ -1377,7 +1379,7 @@ Proof.
       * rewrite Hshape, (ni_shape _ _ _ Hn), F2. destruct (Nat.eqb_spec k new); [congruence|].
         destruct (Nat.eqb_spec k c) as [->|Hkc]; [|symmetry; apply (Wold k nk E)].
         rewrite Htc. unfold ct', ii_ct. cbn [axes]. rewrite map_set_nth. fold w. rewrite W, Nat.eqb_refl.
-        rewrite <- (Wold c cn Ec), Htc. unfold d, cw, ii_cw.
+        pose proof (Wold c cn Ec) as Hwc. rewrite Htc in Hwc. rewrite <- Hwc. unfold d, cw, ii_cw.
         replace (wdim s (nth (ii_j cn) (axes ct) 0)) with (nth (ii_j cn) (map (wdim s') (axes ct)) (wdim s' 0)).
         { rewrite set_nth_nth. reflexivity. }
         rewrite (map_nth (wdim s')). rewrite W. fold (ii_cw cn ct). fold cw. destruct (Nat.eqb_spec cw w); [lia|reflexivity].
@@ -1460,4 +1462,216 @@ Proof.
       * injection Hq as <-. rewrite Nat.eqb_refl. lia.
       * destruct (Nat.eqb_spec q new) as [->|_]; [exfalso; apply (Hnewpar x xn E Hq)|].
         pose proof (Hdp x xn q E Hq). lia.
+Qed.
+
+Theorem insert_identity_preserves_wfb s c p new s' : wfb s = true -> insert_identity s c p new = Some s' -> wfb s' = true.
+Proof. intros H Hi. apply wfb_iff. eapply insert_identity_preserves_wf; [apply wfb_iff; exact H|exact Hi]. Qed.
+
+(* every old node: the child c gets parent new and the fresh wire on its parent leg, the parent p gets
+   new in place of c among its children, everything else is unchanged *)
+Theorem insert_identity_lax s c p new s' k nk :
+  wf s -> insert_identity s c p new = Some s' -> aget k (nodes s) = Some nk ->
+  exists nk', aget k (nodes s') = Some nk' /\ perm nk' = perm nk /\ shape nk' = shape nk /\
+              parent nk' = (if Nat.eqb k c then Some new else parent nk) /\
+              children nk' = (if Nat.eqb k p then replace_first c new (children nk) else children nk) /\
+              lax s' k nk' = (if Nat.eqb k c then next_wire s :: tl (lax s k nk) else lax s k nk).
+Proof.
+  intros H Hi E.
+  destruct (insert_identity_facts _ _ _ _ _ H Hi)
+    as (cn & pn & ct & pm & L' & Ec & Ep & Et & Epar & Hin & Hnew & Hpc & Hnp & Hnc & Epm & Hjni & Hjlt & HL & HL2 & HwL & Hcw
+        & Hn' & Ht' & Hr' & Hd' & Hw' & _).
+  assert (Htc : tens s c = ct) by (apply tens_aget; exact Et).
+  assert (Hk : k <> new) by (intros ->; congruence).
+  assert (F2 : forall k, tens s' k = if Nat.eqb k new then ii_nt s cn ct else if Nat.eqb k c then ii_ct s cn ct else tens s k).
+  { intros k0. unfold tens. rewrite Ht', !aget_aset. destruct (Nat.eqb k0 new); [reflexivity|]. destruct (Nat.eqb k0 c); reflexivity. }
+  rewrite Hn', !aget_aset. destruct (Nat.eqb_spec k new); [congruence|].
+  destruct (Nat.eqb_spec k p) as [->|Hkp].
+  - rewrite Ep in E. injection E as <-. eexists. split; [reflexivity|]. destruct (Nat.eqb_spec p c); [congruence|].
+    repeat split. unfold lax. rewrite F2. destruct (Nat.eqb_spec p new); [congruence|]. destruct (Nat.eqb_spec p c); [congruence|]. reflexivity.
+  - destruct (Nat.eqb_spec k c) as [->|Hkc].
+    + rewrite Ec in E. injection E as <-. eexists. split; [reflexivity|]. repeat split.
+      unfold lax at 1. rewrite F2. destruct (Nat.eqb_spec c new); [congruence|]. rewrite Nat.eqb_refl, HL2.
+      unfold lax. rewrite Htc, HL. reflexivity.
+    + exists nk. repeat split; auto. unfold lax. rewrite F2.
+      destruct (Nat.eqb_spec k new); [congruence|]. destruct (Nat.eqb_spec k c); [congruence|]. reflexivity.
+Qed.
+
+(* the new node: between p and c, axes [old edge wire; fresh wire], no open legs *)
+Theorem insert_identity_new_node s c p new s' :
+  wf s -> insert_identity s c p new = Some s' ->
+  exists cn n2, aget c (nodes s) = Some cn /\ parent cn = Some p /\ aget new (nodes s) = None /\
+                aget new (nodes s') = Some n2 /\ parent n2 = Some p /\ children n2 = [c] /\
+                lax s' new n2 = [hd 0 (lax s c cn); next_wire s] /\ open_of n2 (tens s' new) = [] /\
+                next_wire s' = S (next_wire s) /\ wdim s' (next_wire s) = wdim s (hd 0 (lax s c cn)).
+Proof.
+  intros H Hi.
+  destruct (insert_identity_facts _ _ _ _ _ H Hi)
+    as (cn & pn & ct & pm & L' & Ec & Ep & Et & Epar & Hin & Hnew & Hpc & Hnp & Hnc & Epm & Hjni & Hjlt & HL & HL2 & HwL & Hcw
+        & Hn' & Ht' & Hr' & Hd' & Hw' & _).
+  assert (Htc : tens s c = ct) by (apply tens_aget; exact Et).
+  exists cn, (ii_node p c (wdim s (ii_cw cn ct))). do 3 (split; [assumption|]).
+  split; [rewrite Hn'; apply aget_aset_same|]. split; [reflexivity|]. split; [reflexivity|].
+  assert (Ht : tens s' new = ii_nt s cn ct) by (unfold tens; rewrite Ht', aget_aset_same; reflexivity).
+  assert (Hhd : hd 0 (lax s c cn) = ii_cw cn ct) by (unfold lax; rewrite Htc, HL; reflexivity).
+  rewrite Hhd. split; [unfold lax; rewrite Ht; reflexivity|]. split; [rewrite Ht; reflexivity|]. split; [exact Hw'|].
+  rewrite (wdim_snoc s s' _ _ _ Hd'), Nat.eqb_refl; [reflexivity|].
+  apply aget_None. intros Hin'. apply (wf_dims s H) in Hin'. lia.
+Qed.
+
+Theorem insert_identity_total_atoms s c p new s' :
+  wf s -> insert_identity s c p new = Some s' -> total_atoms s' = total_atoms s ++ [next_atom s].
+Proof.
+  intros H Hi.
+  destruct (insert_identity_facts _ _ _ _ _ H Hi)
+    as (cn & pn & ct & pm & L' & Ec & Ep & Et & Epar & Hin & Hnew & Hpc & Hnp & Hnc & Epm & Hjni & Hjlt & HL & HL2 & HwL & Hcw
+        & Hn' & Ht' & Hr' & Hd' & Hw' & _).
+  assert (Hnt : aget new (aset c (ii_ct s cn ct) (tensors s)) = None).
+  { rewrite aget_aset. destruct (Nat.eqb_spec new c); [congruence|]. apply aget_None. intros Hin'.
+    apply (wf_keys_iff s _ H) in Hin'. apply aget_None in Hnew. contradiction. }
+  unfold total_atoms. rewrite Ht', (aset_fresh _ _ _ Hnt), flat_map_app. cbn [flat_map snd ii_nt atoms app]. f_equal.
+  apply (flat_map_aset_eq _ _ c _ ct); auto. apply (wf_tnd s H).
+Qed.
+
+Theorem insert_identity_total_atoms_perm s c p new s' :
+  wf s -> insert_identity s c p new = Some s' -> Permutation (total_atoms s') (next_atom s :: total_atoms s).
+Proof.
+  intros H Hi. rewrite (insert_identity_total_atoms _ _ _ _ _ H Hi). symmetry. apply Permutation_cons_append.
+Qed.
+
+(* the fresh wire gets its two ends: one on the child's tensor (replacing the old edge wire, whose
+   end moves to the new tensor) and one on the new tensor *)
+Theorem insert_identity_total_ends s c p new s' :
+  wf s -> insert_identity s c p new = Some s' ->
+  Permutation (total_ends s') (next_wire s :: next_wire s :: total_ends s).
+Proof.
+  intros H Hi.
+  destruct (insert_identity_facts _ _ _ _ _ H Hi)
+    as (cn & pn & ct & pm & L' & Ec & Ep & Et & Epar & Hin & Hnew & Hpc & Hnp & Hnc & Epm & Hjni & Hjlt & HL & HL2 & HwL & Hcw
+        & Hn' & Ht' & Hr' & Hd' & Hw' & _).
+  assert (Hnt : aget new (aset c (ii_ct s cn ct) (tensors s)) = None).
+  { rewrite aget_aset. destruct (Nat.eqb_spec new c); [congruence|]. apply aget_None. intros Hin'.
+    apply (wf_keys_iff s _ H) in Hin'. apply aget_None in Hnew. contradiction. }
+  set (E := fun kt : id * sarr => sarr_ends (snd kt)).
+  unfold total_ends. fold E. rewrite Ht', (aset_fresh _ _ _ Hnt), flat_map_app.
+  rewrite (flat_map_adel_perm E c (ii_ct s cn ct) (aset c (ii_ct s cn ct) (tensors s))) by apply aget_aset_same.
+  rewrite adel_aset. rewrite (flat_map_adel_perm E c ct (tensors s) Et).
+  set (X := flat_map E (adel c (tensors s))). set (w := next_wire s). set (B := bnd ct ++ bnd ct).
+  change (E (c, ii_ct s cn ct)) with (set_nth (ii_j cn) w (axes ct) ++ B).
+  change (flat_map E [(new, ii_nt s cn ct)]) with ([ii_cw cn ct; w]).
+  change (E (c, ct)) with (axes ct ++ B).
+  rewrite Permutation_app_comm. cbn [app]. rewrite perm_swap. apply perm_skip.
+  rewrite <- !app_assoc, !app_comm_cons. apply Permutation_app_tail. apply set_nth_perm. exact Hjlt.
+Qed.
+
+(* the new node has no open legs and the others keep theirs, in the same order *)
+Theorem insert_identity_open_wires s c p new s' :
+  wf s -> insert_identity s c p new = Some s' -> open_wires s' = open_wires s.
+Proof.
+  intros H Hi.
+  destruct (insert_identity_facts _ _ _ _ _ H Hi)
+    as (cn & pn & ct & pm & L' & Ec & Ep & Et & Epar & Hin & Hnew & Hpc & Hnp & Hnc & Epm & Hjni & Hjlt & HL & HL2 & HwL & Hcw
+        & Hn' & Ht' & Hr' & Hd' & Hw' & _).
+  destruct (insert_identity_new_node _ _ _ _ _ H Hi) as (cn0 & n2 & _ & _ & _ & En2 & _ & _ & _ & Hopen & _).
+  rewrite Hn', aget_aset_same in En2. injection En2 as <-.
+  set (l2 := aset p (ii_pn c new pn) (aset c (with_parent cn (Some new)) (nodes s))) in *.
+  assert (Hn2 : aget new l2 = None).
+  { unfold l2. rewrite !aget_aset. destruct (Nat.eqb_spec new p); [congruence|]. destruct (Nat.eqb_spec new c); [congruence|]. exact Hnew. }
+  unfold open_wires. rewrite Hn', (aset_fresh _ _ _ Hn2), flat_map_app. cbn [flat_map]. unfold node_open at 2. cbn [fst snd].
+  rewrite Hopen, !app_nil_r.
+  apply flat_map_assoc_eq.
+  - apply (wf_nd s H).
+  - unfold l2. rewrite akeys_aset_amem.
+    + apply akeys_aset_amem. apply amem_aget. eauto.
+    + rewrite amem_aset. apply orb_true_iff. right. apply amem_aget. eauto.
+  - intros k nk nk' E E'. unfold node_open. cbn [fst snd].
+    destruct (insert_identity_lax _ _ _ _ _ k nk H Hi E) as (nk2 & E2 & _ & _ & Hp & Hc & Hl).
+    assert (Hk : k <> new) by (intros ->; congruence).
+    rewrite Hn', aget_aset in E2. destruct (Nat.eqb_spec k new); [congruence|]. fold l2 in E2. rewrite E' in E2. injection E2 as <-.
+    unfold open_of. fold (lax s' k nk') (lax s k nk). rewrite Hl.
+    assert (Hv : nvirt nk' = nvirt nk).
+    { unfold nvirt, nparents. rewrite Hp, Hc. destruct (Nat.eqb_spec k c) as [->|].
+      - rewrite Ec in E. injection E as <-. rewrite Epar. destruct (Nat.eqb c p); [rewrite replace_first_length|]; reflexivity.
+      - destruct (Nat.eqb k p); [rewrite replace_first_length|]; reflexivity. }
+    rewrite Hv. destruct (Nat.eqb_spec k c) as [->|]; [|reflexivity].
+    rewrite Ec in E. injection E as <-.
+    unfold nvirt, nparents. rewrite Epar. cbn [plus]. unfold lax. rewrite (tens_aget _ _ _ Et), HL. reflexivity.
+Qed.
+
+(* ================================================================================================ *)
+(* ---- addenda -------------------------------------------------------------------------------------- *)
+(* ================================================================================================ *)
+
+(* replace_node_in_neighbours succeeds exactly when old exists and, unless old's parent is new
+   itself, that parent lists old among its children *)
+Theorem replace_node_in_neighbours_some s new old del on :
+  new <> old -> aget old (nodes s) = Some on ->
+  (match parent on with
+   | Some p => p = new \/ exists pn, aget p (nodes s) = Some pn /\ In old (children pn)
+   | None => True end) ->
+  exists s', replace_node_in_neighbours s new old del = Some s'.
+Proof.
+  intros Hne Eo Hp. unfold replace_node_in_neighbours.
+  destruct (Nat.eqb_spec new old) as [|_]; [congruence|]. rewrite Eo.
+  fold (set_parents new (children on) (nodes s)).
+  destruct (parent on) as [p|]; [|eauto].
+  destruct (Nat.eqb_spec p new) as [->|Hpn]; [eauto|].
+  destruct Hp as [->|(pn & Epn & Hin)]; [congruence|].
+  rewrite set_parents_aget, Epn. apply memb_In in Hin.
+  destruct (memb p (children on) && negb (Nat.eqb p new)); cbn [option_map];
+    [change (children (with_parent pn (Some new))) with (children pn)|]; rewrite Hin; eauto.
+Qed.
+
+(* the fresh-identifier case under the invariant: a pointwise renaming of the node records *)
+Theorem replace_node_in_neighbours_fresh s new old del s' :
+  wf s -> new <> old -> aget new (nodes s) = None ->
+  replace_node_in_neighbours s new old del = Some s' ->
+  (forall k, aget k (nodes s') =
+             if del && Nat.eqb k old then None else option_map (ren_node (ren1 old new)) (aget k (nodes s))) /\
+  akeys (nodes s') = (if del then remove_first old (akeys (nodes s)) else akeys (nodes s)) /\
+  root s' = option_map (ren1 old new) (root s) /\
+  tensors s' = tensors s /\ dims s' = dims s /\ next_wire s' = next_wire s /\
+  next_atom s' = next_atom s /\ defs s' = defs s /\ atab s' = atab s.
+Proof.
+  intros H Hne Hnew Hr.
+  destruct (replace_node_in_neighbours_spec s new old del s' (wf_nd s H) Hne Hr) as (on & Eo & G & K & R & _ & Rest).
+  split.
+  { intros k. rewrite G. destruct (del && Nat.eqb k old); [reflexivity|].
+    destruct (aget k (nodes s)) as [nk|] eqn:E; [|reflexivity]. cbn. f_equal.
+    apply (rnin_fix_ren s old new on k nk H Eo E). intros ->. congruence. }
+  split; [exact K|]. split; [|exact Rest].
+  rewrite R. destruct (wf_root s H) as (r & rn & Hroot & Er & Hpr & Huniq). rewrite Hroot. cbn.
+  destruct (parent on) as [q|] eqn:Eq.
+  - rewrite ren1_other; [reflexivity|]. intros ->. rewrite Eo in Er. injection Er as <-. congruence.
+  - rewrite (Huniq old on Eo Eq), ren1_same. reflexivity.
+Qed.
+
+(* atoms and wire ends do not need the inverse hypothesis *)
+Theorem replace_tensor_total_atoms_any s n q p s' :
+  wf s -> replace_tensor s n q p = Some s' -> total_atoms s' = total_atoms s.
+Proof.
+  intros H Hr. destruct (replace_tensor_inv _ _ _ _ _ Hr) as (nd & t & nd' & En & Et & _ & _ & _ & _ & _ & _ & _ & _ & ->).
+  unfold total_atoms. cbn. apply (flat_map_aset_eq _ _ n _ t); auto. apply (wf_tnd s H).
+Qed.
+
+Theorem replace_tensor_total_ends_any s n q p s' :
+  wf s -> replace_tensor s n q p = Some s' -> Permutation (total_ends s') (total_ends s).
+Proof.
+  intros H Hr. destruct (replace_tensor_inv _ _ _ _ _ Hr) as (nd & t & nd' & En & Et & Hq & Hl & _ & _ & _ & _ & _ & _ & ->).
+  pose proof (wf_node s H n nd En) as Hn.
+  assert (Hlen : length (shape nd) = length (axes t)).
+  { rewrite (ni_shape _ _ _ Hn), (tens_aget _ _ _ Et), map_length. reflexivity. }
+  unfold total_ends. cbn [tensors upd_tensors upd_nodes]. apply (flat_map_aset_perm _ _ n _ t); auto; [apply (wf_tnd s H)|].
+  cbn [snd]. unfold sarr_ends. cbn [s_transpose axes bnd]. apply Permutation_app_tail.
+  rewrite permute_is_perm.
+  - apply permute_is_perm. rewrite <- Hlen. apply (ni_perm _ _ _ Hn).
+  - rewrite permute_length, <- Hl. exact Hq.
+Qed.
+
+(* the accepted but invariant-breaking input is not an artefact of the boolean checker *)
+Example replace_tensor_wf_counterexample :
+  exists s s', wf s /\ replace_tensor s 0 [1; 0] None = Some s' /\ ~ wf s'.
+Proof.
+  exists (fst (run empty_store [AddRoot 0 [2; 2]; AddChild 1 [2; 3] 0 0 0])).
+  eexists. split; [apply wfb_iff; vm_compute; reflexivity|]. split; [vm_compute; reflexivity|].
+  intros Hwf. apply wfb_iff in Hwf. vm_compute in Hwf. discriminate.
 Qed.
